@@ -1,4 +1,6 @@
 import AFProofs.Lemmas.Grid
+import AFProofs.Lemmas.GridPhys
+import AFProofs.Lemmas.GridComp
 
 /-!
 # C16 — grid searches and sensitivity mapping: cells, tiling, result order, reported shape/limits
@@ -307,7 +309,7 @@ theorem shape_exact (N : Num V) (cfg : Cfg) (h1 : cfg.integerSteps = true)
       = List.replicate ranges.length n := by
   rw [grid_fits_n_pow_d N cfg h1]
   have : 0 < ranges.length := List.length_pos_iff.mpr hd
-  simp [shapeOf, sideOf, h2, Grid.iroot_pow n _ this]
+  simp [shapeOf, sideOf, h2, Grid.sideRound_pow n _ this]
 
 /-- the reported shape accounts for every fitted cell -/
 theorem shape_prod (N : Num V) (cfg : Cfg) (h1 : cfg.integerSteps = true)
@@ -502,6 +504,340 @@ theorem reported_upper_partial (cfg : Cfg) (hc : cfg.upperClamp = true) (d : Dim
 /-- labels in attribute order do not match values in id order -/
 theorem headers_refuted_when_flag_off :
     headers { labelsById := false } ["y", "x"] ["x", "y"] ≠ ["y", "x"] := by decide
+
+/-! ## the physical limits at the level of doubles (`AFModel/GridPhys.lean`)
+
+`uniValue S lo hi q` is `UniformPrior(lo, hi).value_for(u)` as the code computes it from the quantile
+round trip `q = ndtr(ndtri(u))` (the only libm-dependent step, a parameter): raw value, limit gate,
+rounding `S.round`, clamp. The first group holds for every number type and every rounding function - in
+particular for `Float` with CPython's `round`, the instance the driver runs and the harness compares bit
+for bit with `physical_*_lists` and the sensitivity cells. -/
+
+section PhysAny
+open AF.Prior
+variable {K : Type} [Add K] [Sub K] [Mul K] [Div K] [LE K] [LT K] [DecidableLE K] [DecidableLT K]
+  [OfNat K 0] [OfNat K 1] [OfNat K 10]
+set_option linter.unusedSectionVars false
+
+/-- a reported physical limit raises `PriorLimitException` exactly when the raw value `q·(hi-lo)+lo` is
+outside the prior's limits (known finding `C16-prior-unit-end-outside-limits` is the case `q = 1`) -/
+theorem reported_physical_raises_iff (S : Special K) (lo hi q : K) :
+    uniValue S lo hi q = .limit ↔ ¬ (lo ≤ uniRaw lo hi q ∧ uniRaw lo hi q ≤ hi) :=
+  uniValue_limit_iff S lo hi q
+
+/-- otherwise it is the raw value rounded and clamped into the limits -/
+theorem reported_physical_value (S : Special K) (lo hi q : K)
+    (h : lo ≤ uniRaw lo hi q ∧ uniRaw lo hi q ≤ hi) :
+    uniValue S lo hi q = .ok (clamp lo hi (S.round (decimalPlaces (hi - lo)) (uniRaw lo hi q))) :=
+  uniValue_ok S lo hi q h
+
+/-- the reported value is property C02's `value_for` of the grid prior (so C02's theorems about
+`valueFor` - quantile, monotone, inverse - apply to the limits a grid search reports) -/
+theorem reported_physical_is_value_for (S : Special K) (lo hi u : K) :
+    uniValue S lo hi (S.phi (S.phiInv u)) = valueFor S {} false (uniParams lo hi) u :=
+  uniValue_eq_valueFor S lo hi u
+
+/-- row-major: the `k`-th row of `physical_lower_limits_lists` (`centre = false`) holds `value_for` of the
+unit values of the cell with the mixed-radix digits of `k` -/
+theorem reported_physical_row_major (N : Num K) (S : Special K) (trip : K → K) (centre : Bool)
+    (dims : List (Dim K)) (k : Nat) (hk : k < prod (counts dims)) :
+    (physLists S trip dims (unitLists N centre dims))[k]?
+      = some (cellAt (fun d i => uniValue S d.lo d.hi (trip (unitValue N centre d i))) dims
+          (digits (counts dims) k)) := by
+  rw [physLists_unitLists]
+  exact map_lattice_row_major dims _ k hk
+
+/-- one reported row per cell -/
+theorem reported_physical_count (N : Num K) (S : Special K) (trip : K → K) (centre : Bool)
+    (dims : List (Dim K)) :
+    (physLists S trip dims (unitLists N centre dims)).length = prod (counts dims) := by
+  rw [physLists_unitLists]
+  exact map_lattice_length dims _
+
+/-- sensitivity mapping at the level of doubles: one cell per lattice point, the `k`-th job's perturbation
+and prior limits are those of the multi-index `digits k` (row-major) -/
+theorem sens_physical_row_major (N : Num K) (S : Special K) (trip : K → K) (scale : K)
+    (dims : List (Dim K)) (k : Nat) (hk : k < prod (counts dims)) :
+    (sensPhysCells N S trip scale dims).length = prod (counts dims) ∧
+    (sensPhysCells N S trip scale dims)[k]?
+      = some (cellAt (sensPhysDim N S trip scale) dims (digits (counts dims) k)) :=
+  ⟨map_lattice_length dims _, map_lattice_row_major dims _ k hk⟩
+
+/-- a sensitivity cell has no prior (and `Sensitivity.run` raises) exactly when `value_for` of one of its
+two unit limits raises -/
+theorem sens_physical_raises_iff (N : Num K) (S : Special K) (trip : K → K) (scale : K) (d : Dim K)
+    (k : Nat) :
+    (sensPhysDim N S trip scale d k).limits = none ↔
+      (uniValue S d.lo d.hi (trip (sensCellDim N scale d k).unitLower) = .limit ∨
+       uniValue S d.lo d.hi (trip (sensCellDim N scale d k).unitUpper) = .limit) := by
+  simp only [sensPhysDim]
+  cases h1 : uniValue S d.lo d.hi (trip (sensCellDim N scale d k).unitLower) <;>
+    cases h2 : uniValue S d.lo d.hi (trip (sensCellDim N scale d k).unitUpper) <;> simp
+
+/-- `Sensitivity._labels` / `_physical_values` / the rows of `results.csv`: the `k`-th job is labelled with the
+names of the perturb priors in id order, each with `value_for` of the centre of the cell with the row-major
+digits of `k`; one label per job -/
+theorem sens_labels_row_major (N : Num K) (S : Special K) (trip : K → K) (scale : K) (cfg : Grid.Cfg)
+    (h : cfg.labelsById = true) (namesById namesByAttr : List String) (dims : List (Dim K)) (k : Nat)
+    (hk : k < prod (counts dims)) :
+    (sensLabels N S trip scale cfg namesById namesByAttr dims).length = prod (counts dims) ∧
+    (sensLabels N S trip scale cfg namesById namesByAttr dims)[k]?
+      = some (namesById.zip
+          ((cellAt (sensPhysDim N S trip scale) dims (digits (counts dims) k)).map (·.centre))) := by
+  obtain ⟨hl, hr⟩ := sens_physical_row_major N S trip scale dims k hk
+  constructor
+  · simp [sensLabels, hl]
+  · simp [sensLabels, List.getElem?_map, hr, sensLabelParts, headers, h]
+
+end PhysAny
+
+section PhysField
+open AF.Prior Lean Grind
+variable {K : Type} [Field K] [LE K] [LT K] [Std.IsLinearOrder K] [Std.LawfulOrderLT K] [OrderedRing K]
+  [DecidableLE K] [DecidableLT K]
+set_option linter.unusedSectionVars false
+
+/-- whatever the rounding function and the round trip: a physical limit the result reports lies inside
+the original prior's limits -/
+theorem reported_physical_in_limits (S : Special K) (lo hi q v : K) (hLU : lo ≤ hi)
+    (h : uniValue S lo hi q = .ok v) : lo ≤ v ∧ v ≤ hi :=
+  uniValue_mem S lo hi q v hLU h
+
+/-- with a monotone rounding function (CPython's `round` is) reported limits are ordered like the round
+trips of their unit values: the reported edges of successive cells never cross -/
+theorem reported_physical_monotone (S : Special K)
+    (hm : ∀ n x y, x ≤ y → S.round n x ≤ S.round n y) (lo hi q q' v v' : K) (hLU : lo ≤ hi)
+    (hq : q ≤ q') (h : uniValue S lo hi q = .ok v) (h' : uniValue S lo hi q' = .ok v') : v ≤ v' := by
+  by_cases hr : lo ≤ uniRaw lo hi q ∧ uniRaw lo hi q ≤ hi
+  · by_cases hr' : lo ≤ uniRaw lo hi q' ∧ uniRaw lo hi q' ≤ hi
+    · rw [uniValue_ok S lo hi q hr] at h
+      rw [uniValue_ok S lo hi q' hr'] at h'
+      cases h
+      cases h'
+      exact clamp_mono _ _ _ _ (hm _ _ _ (uniRaw_mono lo hi q q' hLU hq))
+    · rw [uniValue_limit S lo hi q' hr'] at h'
+      cases h'
+  · rw [uniValue_limit S lo hi q hr] at h
+    cases h
+
+/-- refinement: in exact arithmetic (no rounding, exact round trip) the reported value of a unit value in
+`[0, 1]` never raises and is `lo + u·(hi - lo)`, the map the tiling theorems are about -/
+theorem reported_physical_exact (S : Special K) (hr : ∀ n x, S.round n x = x) (lo hi u : K)
+    (hLU : lo ≤ hi) (h0 : 0 ≤ u) (h1 : u ≤ 1) :
+    uniValue S lo hi u = .ok (lo + u * (hi - lo)) := by
+  have hmem := uniRaw_mem lo hi u hLU h0 h1
+  rw [uniValue_ok S lo hi u hmem, hr, clamp_id _ _ _ hmem]
+  simp only [uniRaw]
+  congr 1
+  grind
+
+/-- sensitivity mapping: `Prior.with_limits` does not move limits that came out of `value_for`: the
+cell's prior has exactly the two `value_for` values as limits, inside the original prior's limits -/
+theorem sens_limits_are_value_for (N : Num K) (S : Special K) (trip : K → K) (scale : K) (d : Dim K)
+    (k : Nat) (a b : K) (hLU : d.lo ≤ d.hi)
+    (h : (sensPhysDim N S trip scale d k).limits = some (a, b)) :
+    uniValue S d.lo d.hi (trip (sensCellDim N scale d k).unitLower) = .ok a ∧
+    uniValue S d.lo d.hi (trip (sensCellDim N scale d k).unitUpper) = .ok b ∧
+    d.lo ≤ a ∧ b ≤ d.hi := by
+  simp only [sensPhysDim] at h
+  cases h1 : uniValue S d.lo d.hi (trip (sensCellDim N scale d k).unitLower) with
+  | limit => simp [h1] at h
+  | ok va =>
+    cases h2 : uniValue S d.lo d.hi (trip (sensCellDim N scale d k).unitUpper) with
+    | limit => simp [h1, h2] at h
+    | ok vb =>
+      have ma := uniValue_mem S _ _ _ va hLU h1
+      have mb := uniValue_mem S _ _ _ vb hLU h2
+      simp only [h1, h2, Option.some.injEq, Prod.mk.injEq] at h
+      rw [pyMax_of_le va d.lo ma.1, pyMin_of_le vb d.hi mb.2] at h
+      obtain ⟨rfl, rfl⟩ := h
+      exact ⟨rfl, rfl, ma.1, mb.2⟩
+
+end PhysField
+
+/-- the float-level definition, run in exact arithmetic, reports exactly the limits of the cell fitted
+(`reported_limits_are_fitted` stated through `value_for` instead of the idealised `physical`) -/
+theorem reported_physical_limits_are_fitted (cfg cfg' : Cfg) (lo hi : Rat) (hLU : lo ≤ hi) (n k : Nat)
+    (hk : k < n) :
+    (uniValue AF.Prior.ratSpecial lo hi (unitValue ratNum false (mkDim ratNum cfg lo hi n) k),
+     uniValue AF.Prior.ratSpecial lo hi
+       (upperUnit ratNum cfg' n (unitValue ratNum false (mkDim ratNum cfg lo hi n) k)))
+      = (.ok (gridCellDim ratNum (mkDim ratNum cfg lo hi n) k).1,
+         .ok (gridCellDim ratNum (mkDim ratNum cfg lo hi n) k).2) := by
+  have e := reported_limits_are_fitted cfg cfg' lo hi n k hk
+  have hu0 : (0 : Rat) ≤ unitValue ratNum false (mkDim ratNum cfg lo hi n) k := unit_lower_nonneg n k
+  have hu1 : unitValue ratNum false (mkDim ratNum cfg lo hi n) k + (mkDim ratNum cfg lo hi n).step ≤ 1 :=
+    unit_upper_le_one n k hk
+  have hs : (0 : Rat) ≤ (mkDim ratNum cfg lo hi n).step := inv_nat_nonneg n
+  rw [reported_upper_exact cfg cfg' lo hi n k hk] at e ⊢
+  rw [reported_physical_exact AF.Prior.ratSpecial (fun _ _ => rfl) lo hi _ hLU hu0 (by grind),
+    reported_physical_exact AF.Prior.ratSpecial (fun _ _ => rfl) lo hi _ hLU (by grind) hu1]
+  rw [← e]
+  rfl
+
+example : uniValue AF.Prior.ratSpecial 2 5 (1 / 3) = .ok 3 ∧
+    physLists AF.Prior.ratSpecial id (gridDims ratNum {} 2 [(0, 1), (2, 4)])
+        (unitLists ratNum false (gridDims ratNum {} 2 [(0, 1), (2, 4)]))
+      = [[.ok 0, .ok 2], [.ok 0, .ok 3], [.ok (1 / 2), .ok 2], [.ok (1 / 2), .ok 3]] := by
+  decide +kernel
+
+example : (sensPhysCells ratNum AF.Prior.ratSpecial id 1 (sensDims ratNum {} [((2, 5), 3)])).map
+      (fun c => c.map fun s => (s.centre, s.limits))
+    = [[(.ok (5 / 2), some (2, 3))], [(.ok (7 / 2), some (3, 4))], [(.ok (9 / 2), some (4, 5))]] := by
+  decide +kernel
+
+example : sensLabels ratNum AF.Prior.ratSpecial id 1 {} ["b", "a"] ["a", "b"]
+      (sensDims ratNum {} [((0, 1), 1), ((2, 5), 3)])
+    = [[("b", .ok (1 / 2)), ("a", .ok (5 / 2))], [("b", .ok (1 / 2)), ("a", .ok (7 / 2))],
+       [("b", .ok (1 / 2)), ("a", .ok (9 / 2))]] := by
+  decide +kernel
+
+/-- known finding `C16-prior-unit-end-outside-limits` at the level of doubles: for this prior the raw
+value of the unit end point 1 is above the upper limit, `value_for(1.0)` raises -/
+theorem reported_physical_refuted_in_doubles :
+    raises (uniValue AF.Prior.floatSpecial (Float.ofBits 0xc080b7481a02faef)
+      (Float.ofBits 0xc06d9ac95ebeb875) (Float.ofNat 1)) = true := by
+  decide +kernel
+
+/-! ## the composition of a cell (`AFModel/GridComp.lean`): all other parameters keep their priors
+
+`cellComp t gridIds fresh` is `model.mapper_from_partial_prior_arguments` of one cell on the composition
+model of properties C01/C08 (`Node`, `walk`, `pathPriors`, `count`, `instW`): the driver runs it on the real
+model's tree and the harness compares places, ids in parameter order, count and instances of sampled cells. -/
+
+section CellComp
+open AF
+variable {W : Type}
+
+/-- the cell's model has exactly the places of the original model -/
+theorem cell_places (t : Node W) (gridIds fresh : List Nat) :
+    (walk (cellComp t gridIds fresh)).map (·.1) = (walk t).map (·.1) := by
+  rw [walk_cellComp, List.map_map]
+  rfl
+
+/-- **"all other parameters keep their priors"**: a place that holds a prior which is not a grid prior
+holds the same prior (same id) in every cell's model, also in the id-ordered `path_priors_tuples` -/
+theorem others_keep_priors_comp (t : Node W) (gridIds fresh : List Nat) (p : Path) (id : Nat)
+    (hm : (p, id) ∈ walk t) (hn : id ∉ gridIds) :
+    (p, id) ∈ walk (cellComp t gridIds fresh) ∧ (p, id) ∈ pathPriors (cellComp t gridIds fresh) := by
+  have h : (p, id) ∈ walk (cellComp t gridIds fresh) := by
+    rw [walk_cellComp]
+    exact List.mem_map.mpr ⟨(p, id), hm, by simp [cellSigma_not_mem gridIds fresh id hn]⟩
+  exact ⟨h, (mem_pathPriors _ _).mpr h⟩
+
+/-- every place of the `i`-th grid prior (tied places included) holds the cell's new prior of dimension `i` -/
+theorem grid_places_replaced_comp (t : Node W) (gridIds fresh : List Nat) (p : Path) (i id new : Nat)
+    (hnd : gridIds.Nodup) (hi : gridIds[i]? = some id) (hf : fresh[i]? = some new)
+    (hm : (p, id) ∈ walk t) :
+    (p, new) ∈ walk (cellComp t gridIds fresh) ∧ (p, new) ∈ pathPriors (cellComp t gridIds fresh) := by
+  have h : (p, new) ∈ walk (cellComp t gridIds fresh) := by
+    rw [walk_cellComp]
+    exact List.mem_map.mpr ⟨(p, id), hm, by simp [cellSigma_mem gridIds fresh i id new hnd hi hf]⟩
+  exact ⟨h, (mem_pathPriors _ _).mpr h⟩
+
+/-- nothing else changes: a place of the cell's model holds either the prior it held or a new prior -/
+theorem cell_places_only (t : Node W) (gridIds fresh : List Nat) (hl : fresh.length = gridIds.length)
+    (p : Path) (j : Nat) (hm : (p, j) ∈ walk (cellComp t gridIds fresh)) :
+    ((p, j) ∈ walk t ∧ j ∉ gridIds) ∨ (j ∈ fresh ∧ ∃ id ∈ gridIds, (p, id) ∈ walk t) := by
+  rw [walk_cellComp] at hm
+  obtain ⟨⟨q, id⟩, hq, he⟩ := List.mem_map.mp hm
+  simp only [Prod.mk.injEq] at he
+  obtain ⟨rfl, rfl⟩ := he
+  by_cases hg : id ∈ gridIds
+  · exact .inr ⟨cellSigma_mem_fresh gridIds fresh id hl hg, id, hg, hq⟩
+  · rw [cellSigma_not_mem gridIds fresh id hg]
+    exact .inl ⟨hq, hg⟩
+
+/-- the number of free parameters of a cell is that of the original model, when the new priors have ids of
+their own (pairwise distinct, none an id of the model - checked on the real ids on every run) -/
+theorem cell_count (t : Node W) (gridIds fresh : List Nat) (hl : fresh.length = gridIds.length)
+    (hf : fresh.Nodup) (hd : ∀ x ∈ fresh, x ∉ (walk t).map (·.2)) :
+    count (cellComp t gridIds fresh) = count t := by
+  have e : (walk (cellComp t gridIds fresh)).map (·.2)
+      = ((walk t).map (·.2)).map (cellSigma gridIds fresh) := by
+    rw [walk_cellComp, List.map_map, List.map_map]
+    rfl
+  simp only [count, uniqueIds, e]
+  exact length_sortDedup_map (cellSigma gridIds fresh) ((walk t).map (·.2))
+    (cellSigma_injOn gridIds fresh _ hl hf hd)
+
+/-- the instance a cell's model builds is the instance the original model builds when every grid parameter
+takes the value drawn for the cell's prior and every other parameter its own value -/
+theorem cell_instance [Inhabited W] (ops : Ops W) (ρ : Nat → Inst W) (t : Node W)
+    (gridIds fresh : List Nat) :
+    instW ops ρ (cellComp t gridIds fresh) = instW ops (fun id => ρ (cellSigma gridIds fresh id)) t :=
+  instW_rename ops ρ _ t
+
+/-- the ids `make_arguments` draws for the jobs of one search are pairwise distinct within a job and
+between jobs -/
+theorem fresh_ids_distinct (base d : Nat) (k k' i i' : Nat) (hi : i < d) (hi' : i' < d)
+    (h : (freshIds base d k)[i]? = (freshIds base d k')[i']?) : k = k' ∧ i = i' := by
+  simp only [freshIds, List.getElem?_map, List.getElem?_range hi, List.getElem?_range hi',
+    Option.map_some, Option.some.injEq] at h
+  have h1 : k * d + i = k' * d + i' := by omega
+  have hk : k = k' := by
+    have a := congrArg (· / d) h1
+    simp only [Nat.mul_comm _ d, Nat.mul_add_div (by omega : d > 0), Nat.div_eq_of_lt hi,
+      Nat.div_eq_of_lt hi'] at a
+    omega
+  subst hk
+  exact ⟨rfl, by omega⟩
+
+end CellComp
+
+example : walk (cellComp (V := Nat)
+      (.coll [("g", .model "P2" ["a", "b"] [("a", .prior 5), ("b", .prior 6)]),
+              ("h", .model "P3" ["a", "b", "c"] [("a", .prior 7), ("b", .prior 5), ("c", .const 1)])])
+      [7, 5] [8, 9])
+    = [(["g", "a"], 9), (["g", "b"], 6), (["h", "a"], 8), (["h", "b"], 9)] ∧
+    freshIds 8 2 3 = [14, 15] := by decide
+
+example : count (cellComp (V := Nat)
+      (.coll [("g", .model "P2" ["a", "b"] [("a", .prior 5), ("b", .prior 6)]),
+              ("h", .model "P3" ["a", "b", "c"] [("a", .prior 7), ("b", .prior 5), ("c", .const 1)])])
+      [7, 5] [8, 9]) = 3 :=
+  (cell_count _ [7, 5] [8, 9] rfl (by decide) (by decide)).trans (by decide)
+
+/-! ## the reported shape for every number of results (perfect power or not, every `d`)
+
+`GridSearchResult` derives its shape from the *number* of unit lists it is given,
+`d * (int(round(N ** (1 / d))),)`; `sideRound` is that integer for every `N` (what the code does when a
+result is built from a list that is not a full grid), compared with the real class for all `N` below a cap
+and `d ≤ 6` on every run. -/
+
+/-- the integer root for every argument -/
+theorem iroot_spec (t d : Nat) (hd : 0 < d) : iroot t d ^ d ≤ t ∧ t < (iroot t d + 1) ^ d :=
+  Grid.iroot_spec t d hd
+
+/-- on a full grid the rounded root is the number of steps -/
+theorem side_round_pow (n d : Nat) (hd : 0 < d) : sideRound (n ^ d) d = n :=
+  Grid.sideRound_pow n d hd
+
+/-- for every number of results the reported side is the integer nearest to the real `d`-th root:
+`(2s-1)^d ≤ 2^d·N < (2s+1)^d` -/
+theorem side_round_nearest (total d : Nat) (hd : 0 < d) :
+    (2 * sideRound total d - 1) ^ d ≤ 2 ^ d * total ∧ 2 ^ d * total < (2 * sideRound total d + 1) ^ d :=
+  Grid.sideRound_nearest total d hd
+
+/-- the reported shape accounts for every result (and `native` can reshape the per-cell lists) exactly
+when the number of results is a perfect `d`-th power: a result built from any other number of cells - an
+interrupted or hand-made list - has a shape whose product is not the number of its entries -/
+theorem shape_accounts_iff (cfg : Cfg) (h : cfg.shapeExact = true) (total d : Nat) (hd : 0 < d) :
+    nativeOk cfg total d = true ↔ ∃ n, n ^ d = total := by
+  simp only [nativeOk, prod_replicate, beq_iff_eq, sideOf, h, if_true]
+  constructor
+  · intro e; exact ⟨_, e⟩
+  · rintro ⟨n, rfl⟩; rw [Grid.sideRound_pow n d hd]
+
+/-- so after a full search the reshaped (`native`) arrays exist, in every dimension -/
+theorem native_ok_after_full_search (N : Num V) (cfg : Cfg) (h1 : cfg.integerSteps = true)
+    (h2 : cfg.shapeExact = true) (n : Nat) (ranges : List (V × V)) (hd : ranges ≠ []) :
+    nativeOk cfg (gridModel N cfg n ranges).length ranges.length = true := by
+  rw [grid_fits_n_pow_d N cfg h1]
+  exact (shape_accounts_iff cfg h2 _ _ (List.length_pos_iff.mpr hd)).mpr ⟨n, rfl⟩
+
+example : sideRound 8 2 = 3 ∧ sideRound 6 2 = 2 ∧ sideRound 80 4 = 3 ∧ sideRound 81 4 = 3 ∧
+    nativeOk {} 8 2 = false ∧ nativeOk {} 81 4 = true ∧ nativeOk {} 7776 5 = true := by decide
 
 /-! tests (evaluated by the compiler at build time, not theorems): libm's `pow` does not reduce in
 the kernel, so the link between `sideF` and the bit pattern above is checked here -/
